@@ -123,6 +123,10 @@ def run_jobs(ctx, jobs, nb=12):
 def py_outcome(doc, res, entry):
     """Direct behavioural check of the property on the real code: (outcome class, details)."""
     w = res['write']
+    if res.get('caller_data_changed'):
+        return 'caller-data-modified', [res['caller_data_changed']]
+    if res.get('bystander_changed'):
+        return 'another-live-object-changed', [res['bystander_changed']]
     if 'exc' in w:
         return 'write-raised-%s' % w['exc'], ['write raised %s: %s (%s); file %s' % (
             w['exc'], w['msg'], w['where'], 'left behind' if res.get('file_hex') is not None else 'not created')]
